@@ -137,11 +137,18 @@ pub fn run(ops: &[String], out: &mut Out) -> Result<(), String> {
             }
             out.count("oracle:failed-batch");
             if before != after {
+                // 470 = a query failed inside the transaction; any other error status comes from outside
+                // the transaction (e.g. the audit file could not be written after the commit)
+                let key = if st == 470 {
+                    format!("C25/partial-batch-visible/{site}")
+                } else {
+                    "C25/applied-batch-reported-failed-and-not-audited/DbPool::exec_mut".to_string()
+                };
                 out.violation(
-                    &format!("C25/partial-batch-visible/{site}"),
-                    "if any query of a batch fails no change of the batch is visible",
+                    &key,
+                    "a batch answered with an error leaves no visible change (and applied batches are audited)",
                     &before,
-                    &after,
+                    &format!("status {st}: {after}"),
                 );
             }
             if audit_before != audit_after {
